@@ -1494,7 +1494,7 @@ func c14Run(c *mc.Ctx) {
 			if !c.Mine(idx) {
 				continue
 			}
-			if k&0x3FF == 0 && c.Expired() {
+			if c.Due(0x3FF) {
 				c.Note(fmt.Sprintf("deadline hit in templates of length %d", n))
 				return
 			}
